@@ -84,6 +84,15 @@ pub fn hostpanic_key(msg: &str, loc: &str) -> String {
     // type-variable numbering and similar digits are not part of the call site's identity
     let msg: String = msg.chars().filter(|c| !c.is_ascii_digit()).collect();
     // symbols are printed with their address: `Pointer { addr: x.., metadata:  }:name@_`
+    // (anywhere else in the message: `Pointer { .. }` -> PTR)
+    let mut msg = msg;
+    while let Some(i) = msg.find("Pointer { addr:") {
+        if i > 0 && msg.as_bytes()[i - 1] == b'`' {
+            break;
+        }
+        let end = msg[i..].find('}').map(|e| i + e + 1).unwrap_or(msg.len());
+        msg = format!("{}PTR{}", &msg[..i], &msg[end..]);
+    }
     let msg = if let Some(i) = msg.find("`Pointer {") {
         let rest = &msg[i + 1..];
         let end = rest.find('`').map(|e| i + 1 + e + 1).unwrap_or(msg.len());
